@@ -69,6 +69,12 @@ class SubstCanon:
             recv, var = a[2]
             if recv == self.p_plug and self.fld(var) == 'v':
                 return ('fresh', 'e' if a[1].endswith('e_fresh') else 's', 'plug', 'v')
+        # freshness of a child for the substituted variable: the recursive substitution is the identity on that child
+        if a[0] == 'call' and a[1] in ('Pattern::e_fresh', 'Pattern::s_fresh') and len(a[2]) == 2:
+            recv, var = a[2]
+            rl = self.fld(recv)
+            if rl is not None and var == self.p_var:
+                return ('Jvar', 'e' if a[1].endswith('e_fresh') else 's', rl)
         # `<constraint list of self>.contains(&var)`: membership of the substituted variable in a constraint list of the metavariable
         if a[0] == 'call' and a[1] in ('slice::contains', 'Vec::contains', '<[T]>::contains') and len(a[2]) == 2:
             lst, var = a[2]
@@ -112,7 +118,7 @@ def _expand_self(t, variant):
     return t
 
 
-def compare(variant: str, got: list, spec: list, unchanged_roles=()):
+def compare(variant: str, got: list, spec: list, unchanged_roles=(), refuse_ok: bool = False):
     """-> None or a message.  Both are lists of (conds, outcome); compared on every valuation of the atoms."""
     import itertools
     atoms = []
@@ -140,15 +146,30 @@ def compare(variant: str, got: list, spec: list, unchanged_roles=()):
                 return t
             t = _expand_self(t, variant)
             t = _unchanged(t, val)
+            t = _fresh_identity(t, val)
             # identity shortcut of a pending substitution: with nothing to instantiate, apply_subst(P, v, Q) on a
             # well-formed head (MetaVar | ESubst | SSubst; C01 S2) wraps again, i.e. rebuilds this very constructor
             if variant in ('ESubst', 'SSubst') and t == (variant.lower(), SS.F('P'), SS.F('v'), SS.F('Q')):
                 return ('C', variant, SS.F('P'), SS.F('v'), SS.F('Q'))
             return t
 
+        if refuse_ok and g == 'raise':
+            continue            # refusing where the table substitutes rejects more proofs: never unsound
         if nrm(g) != nrm(s):
             return f'at {_val(val)}: code yields {show(g)} but the textbook definition yields {show(s)}'
     return None
+
+
+def _fresh_identity(t, val):
+    """under ('Jvar', kind, role)=True - the substituted variable is fresh in that child - the recursive substitution of the child
+    is the child itself (the algebra's identity law).  Only for the judgement of the sort being substituted: a Jvar atom of the other
+    sort never appears in a table, so it normalises nothing that the table could match."""
+    if not isinstance(t, tuple) or not t:
+        return t
+    if t[0] == 'rec' and any(a[0] == 'Jvar' and a[2] == t[1] and v is True and a[1] == val.get(('subst-kind',), a[1]) for a, v in val.items()
+                             if isinstance(a, tuple) and a):
+        return ('f', t[1])
+    return tuple(_fresh_identity(x, val) if isinstance(x, tuple) else x for x in t)
 
 
 def _unchanged(t, val):
